@@ -8,3 +8,9 @@ cp ../coq/x_*.ml ../coq/x_*.mli _build/
 cd _build
 XS=$(ls x_*.ml | sort)
 DS=$(ls drv_*.ml | sort)
+# link order: helpers, every extracted model (interface before implementation), every driver
+# (each registers itself at load time), then the main loop
+XI=$(ls x_*.mli | sort)
+FILES=""
+for x in $XS; do FILES="$FILES ${x}i $x"; done
+ocamlfind ocamlopt -w -a sexp.ml registry.ml $FILES $DS main.ml -o ../../bin/fomodel
